@@ -49,6 +49,7 @@ type Cfg struct {
 	BoundDir                              string // directory of the hand-written autobind package ("bound", or "pkg/model": same package name as the generated model package)
 	SchemaDir                             string // "" or sub directory
 	SchemaGlob                            string
+	FirstSchemaGlob                       string // listed before SchemaGlob when set (a source inside the exec dir)
 	StructTag                             string
 	Initialisms                           int // 0 none, 1 add, 2 replace
 	LocalPrefix                           bool
@@ -198,7 +199,11 @@ func join(dir, f string) string {
 // of the project root.
 func (c Cfg) YAML(pkg, importBase string, s *Schema) string {
 	var b strings.Builder
-	fmt.Fprintf(&b, "schema:\n  - %q\n", c.SchemaGlob)
+	b.WriteString("schema:\n")
+	if c.FirstSchemaGlob != "" {
+		fmt.Fprintf(&b, "  - %q\n", c.FirstSchemaGlob)
+	}
+	fmt.Fprintf(&b, "  - %q\n", c.SchemaGlob)
 	execPkg := pkg
 	if c.ExecDir != "" {
 		execPkg = filepath.Base(c.ExecDir)
@@ -426,6 +431,12 @@ func BuildProject(po ProjectOpts) *Project {
 		if po.Inject == "enum_values_bind" || po.Inject == "enum_values_list" {
 			delete(o.Avoid, po.Inject) // the witness enum is bound by the autobind writer
 		}
+	}
+	// the exec package lives in graph/, the schema elsewhere: put the first schema file next to the
+	// generated code and list it first (embeddable source first, inlined sources last)
+	if po.Inject == "" && c.ExecDir == "graph" && c.SchemaDir != "graph" && o.Files >= 2 && po.Idx%2 == 1 {
+		o.FirstFileDir = "graph"
+		c.FirstSchemaGlob = "graph/*.graphql"
 	}
 	o.AcyclicValueStructs = c.NeedsAcyclicValueStructs()
 	if c.Autobind {
